@@ -610,8 +610,11 @@ def method_forms(case, ctx):
   # an entry point that creates a collection after __call__ has returned
   with sut('init(method=then_put)'):
     y5, v5 = mod.init_with_output(key, x, method='then_put')
+  # (the sum may cancel: tolerance relative to the magnitude of the terms)
+  tol_sum = lambda y: 1e-5 * (1.0 + float(np.sum(np.abs(np.asarray(y)))))
   require('late' in v5 and np.allclose(np.asarray(v5['late']['v']),
-                                       np.sum(np.asarray(y5)), rtol=1e-5),
+                                       np.sum(np.asarray(y5)), rtol=1e-5,
+                                       atol=tol_sum(y5)),
           lambda: f'init(method=then_put) returned collections {sorted(v5)}: '
           'the collection written after __call__ returned is missing or wrong')
   require(tree_eq({c: v5[c] for c in v5 if c != 'late'}, v0), 'init(method='
@@ -619,7 +622,8 @@ def method_forms(case, ctx):
   with sut('apply(method=then_put)'):
     y6, u6 = mod.apply(base, x, mutable=['late'], method=cls.then_put)
   require(set(u6) == {'late'} and np.allclose(
-      np.asarray(u6['late']['v']), np.sum(np.asarray(y6)), rtol=1e-5),
+      np.asarray(u6['late']['v']), np.sum(np.asarray(y6)), rtol=1e-5,
+      atol=tol_sum(y6)),
           lambda: f'apply(mutable=[late], method=then_put) returned {sorted(u6)}')
   require(snap(mod) == s_mod and snap(x) == s_x and snap(base) == s_v,
           'an entry-point form changed the module, the input or the variables')
